@@ -14,7 +14,7 @@ func init() {
 		Technique: "decision tables of the flush filter and of the completion gate + effect audit of the flusher's closure + sibling agreement of the flush and invalidate filters",
 		Explanation: "Decides on mem/cache/writeback (flusher.go, ctrlmiddleware.go): (1) a block is selected for write-back iff it is valid and dirty, the process filter is zero or equal to the block's process, and the address list is empty or contains the block's line (addresses aligned down to the line size); the same block reference goes into the work list and into the list of lines to mark clean; " +
 			"(2) selection happens only after the no-in-flight-transaction test; (3) the flush is acknowledged only when the work list is empty, the completion predicate holds and the control port can send, and the completion predicate fails while any container that carries write-back work is non-empty (directory-to-bank buffers, bank in-flight counters, write buffer, pending and in-flight evictions, in-flight fetches); " +
-			"(4) nothing reachable from the flusher marks a block invalid, and the only blocks it marks clean are the ones recorded for this flush; (5) the invalidate filter applies the same process/address rule (sibling agreement); (slot-pinning) a transaction slot whose index is still held by a pending or in-flight eviction or fetch list is never handed out again, so the write-back a flush waits for carries the evicted line's own data.",
+			"(4) nothing reachable from the flusher marks a block invalid, and the only blocks it marks clean are the ones recorded for this flush; (5) the invalidate filter applies the same process/address rule (sibling agreement); (slot-pinning) a transaction slot whose index is still held by a pending or in-flight eviction or fetch list is never handed out again, so the write-back a flush waits for carries the evicted line's own data. (flush-sweep) the flusher's walk over the directory that builds the flush list ends only by exhaustion.",
 		NotDecided:  "that backing memory holds the latest bytes (value-level); the bank and write-buffer stages' handling of the eviction itself.",
 		Assumptions: []string{"the containers listed in (3) are the ones eviction work travels through (frozen list, one reason each in the rule)"},
 	}, runC17)
@@ -34,6 +34,8 @@ func init() {
 }
 
 func runC17(c *Ctx) {
+	sweepExhaustiveRule(c, "flush-sweep", "mem/cache/writeback", "flusher", "prepareBlockToFlushList",
+		"the directory is keyed by process and address, so the same line address can be resident once per process; a walk that stops after 'enough' matches leaves the remaining matching dirty lines unwritten and dirty although the flush is acknowledged")
 	evictionFieldsRule(c, "writeback-request-fields")
 	// a slot whose index is still queued for (or awaiting) an eviction
 	// write-back must not be reused: the write-back would carry another
